@@ -155,6 +155,65 @@ impl Sub for Freshness {
   }
 }
 
+// ---------------------------------------------------------------- histories whose builds run at the same time
+
+/// `threads` threads build `per_thread` tokens each, at the same time, under one key with identical claims.
+#[derive(Clone, Debug, Serialize, Deserialize)]
+pub struct ConcurrentHistory {
+  pub proto: Proto,
+  pub layer: Layer,
+  pub threads: u8,
+  pub per_thread: u32,
+}
+
+pub struct Concurrent;
+
+impl Sub for Concurrent {
+  type Case = ConcurrentHistory;
+  fn name(&self) -> String {
+    "C10/concurrent-histories".into()
+  }
+  fn check(&self, c: &ConcurrentHistory, cl: &mut Classes) -> Verdict {
+    let p = c.proto;
+    let (threads, per) = (c.threads.clamp(2, 32) as usize, c.per_thread as usize);
+    let start = std::sync::Barrier::new(threads);
+    let results: Vec<Option<Vec<Vec<u8>>>> = std::thread::scope(|sc| {
+      let handles: Vec<_> = (0..threads)
+        .map(|_| {
+          sc.spawn(|| {
+            let km = keys::material(p, &[42u8; 32]);
+            let lk = km.lib().expect("valid key");
+            start.wait();
+            let mut out = Vec::with_capacity(per);
+            for _ in 0..per {
+              out.push(build_one(p, c.layer, &lk)?);
+            }
+            Some(out)
+          })
+        })
+        .collect();
+      handles.into_iter().map(|h| h.join().unwrap_or(None)).collect()
+    });
+    cl.tag(format!("{}:{}:threads={}", p.label(), c.layer.label(), threads));
+    cl.nontrivial(per >= 100);
+    let mut seen: std::collections::HashMap<Vec<u8>, usize> = std::collections::HashMap::with_capacity(threads * per);
+    for (t, r) in results.iter().enumerate() {
+      let nonces = match r {
+        Some(n) => n,
+        None => vio!("C10:build-failed:{}:{}", p.label(), c.layer.label(); "a build failed (or panicked) in one of {} threads building at the same time", threads),
+      };
+      for n in nonces {
+        if let Some(prev) = seen.insert(n.clone(), t) {
+          vio!("C10:nonce-repeated-across-threads:{}:{}", p.label(), c.layer.label(); "nonce {} was used twice under one key: by thread {} and by thread {} ({} threads x {} builds at the same time)", hex::encode(n), prev, t, threads, per);
+        }
+      }
+    }
+    BUILDS.fetch_add((threads * per) as u64, std::sync::atomic::Ordering::Relaxed);
+    DISTINCT.fetch_add(seen.len() as u64, std::sync::atomic::Ordering::Relaxed);
+    Verdict::Pass
+  }
+}
+
 // ---------------------------------------------------------------- histories that continue in a forked process
 
 /// `pre` builds, then the process forks, then `post` builds in the parent and in the child - all under one key.
@@ -305,7 +364,7 @@ static BUILDS: std::sync::atomic::AtomicU64 = std::sync::atomic::AtomicU64::new(
 static DISTINCT: std::sync::atomic::AtomicU64 = std::sync::atomic::AtomicU64::new(0);
 
 pub fn subs() -> Vec<Box<dyn DynSub>> {
-  vec![Box::new(Freshness), Box::new(AcrossFork)]
+  vec![Box::new(Freshness), Box::new(AcrossFork), Box::new(Concurrent)]
 }
 
 pub fn run(ctx: &Ctx) -> EvidenceMeta {
@@ -337,6 +396,11 @@ pub fn run(ctx: &Ctx) -> EvidenceMeta {
     .flat_map(|proto| [Layer::Generic, Layer::Prelude].into_iter().flat_map(move |layer| [(0u32, 50u32), (1, 50), (7, 200)].into_iter().map(move |(pre, post)| ForkHistory { proto: *proto, layer, pre, post })))
     .collect();
   jobs.push(Box::new(move || ctx.enumerate(af, fork_cases.into_iter(), false)));
+  // builds that run at the same time on 8 / 16 threads (by design, not by the accident of the job scheduler)
+  let cc = &Concurrent;
+  let per_thread = ctx.n(2500, 12_000) as u32;
+  let conc_cases: Vec<ConcurrentHistory> = Proto::LOCAL.iter().flat_map(|proto| [(Layer::Generic, 8u8), (Layer::Prelude, 16u8)].into_iter().map(move |(layer, threads)| ConcurrentHistory { proto: *proto, layer, threads, per_thread })).collect();
+  jobs.push(Box::new(move || ctx.enumerate(cc, conc_cases.into_iter(), false)));
   run_jobs(jobs);
   let builds = BUILDS.load(std::sync::atomic::Ordering::Relaxed);
   let distinct = DISTINCT.load(std::sync::atomic::Ordering::Relaxed);
@@ -352,6 +416,7 @@ pub fn run(ctx: &Ctx) -> EvidenceMeta {
            plus identical LARGE claims (70 000 bytes) and generated histories in which builds of the other local versions are interleaved on the same thread (repeating blocks of 1-23 versions). For v3/v4 (raw random nonce) no 8-byte window may occur in two nonces at any offset. \
            Invariant over the history: the nonce fields (first 32, v2 24, decoded payload bytes) are pairwise distinct, the tokens are pairwise distinct, every one of the 256/192 nonce bit positions is 1 in N/2 +- sqrt(30 N) builds \
            (Hoeffding: a uniform source violates this with probability < 2^-70 over all positions and histories) and every nonce byte position takes >= 128 distinct values. \
+           Concurrent histories: 8 / 16 threads released by a barrier build 2500 (thorough 12 000) tokens each at the same time under one key - no nonce twice in the union. \
            Histories across fork(): pre in {{0,1,7}} builds, then the process forks and parent and child each build 50/200 more under the same key - no nonce may occur twice in the union. \
            An 'evaluation' is one history; builds_total / distinct_nonces_total count the builds. Non-trivial = N >= 1000; distinct by (version, builder, mode)."),
     assumptions: vec!["observes the OS random generator (that is the property); 'unpredictable' is not decidable by observation - a weak but equidistributed generator passes".into()],
